@@ -57,10 +57,10 @@ def run(chk):
                 chk.ob("R10.6", rel, qual, f"a cached function ({txt}) does not read files or depend on mutable state",
                        not MEMO.reads_external_state(mod, fn), node=fn, fingerprint=f"cache:{qual}")
         chk.ob("R10.6", CR, "I/O modules", f"{n} caching decorators found on the crystal I/O path", True, nontrivial=False)
-    chk.rule("R10.10", "the unit-cell atoms written to POSCAR are the distinct sites of the cell: wrap before merge, periodic and distance-based coincidence, occupancy-conserving merge (= C01 R01.3, R01.4)", 4)
+    chk.rule("R10.10", "the unit-cell atoms written to POSCAR are the distinct sites of the cell: wrap before merge, periodic and distance-based coincidence, aligned per-atom columns, occupancy-conserving merge (= C01 R01.2, R01.3, R01.4)", 4)
     if chk.want("R10.10"):
         from ..inherit import inherit
-        inherit(chk, "R10.10", "c01", ["R01.3", "R01.4"])
+        inherit(chk, "R10.10", "c01", ["R01.2", "R01.3", "R01.4"])
     chk.assume("numeric equality 'to the written precision' and parsing of arbitrary label strings are not decided")
     chk.assume("the SHELX writer does not carry occupancies (the format clause 'where the format carries them')")
     chk.assume("LATT/SYMM soundness is C02 (R02.3-R02.5); CIF text round trip is C15; symmetry-operation strings are C11 (R11.7)")
@@ -406,6 +406,15 @@ def r10_3(chk, repo, cr):
                                                                            for c, pol in conv[0].guards)
     chk.ob("R10.3", CR, "Crystal.from_vasp_string", "coordinates are converted to fractional only when the type line does not start with 'd'; the cell is UnitCell(direct); space group P1",
            okc and "UnitCell(" in fv.returns[0].value.key() and "SpaceGroup(1)" in fv.returns[0].value.key(), found=str(conv[0].value)[:100] if conv else None)
+    # the crystal's cell is the cell of the file's lattice vectors themselves (a cell rebuilt from lengths and angles is the same cell in
+    # another orientation: the lattice vectors and every Cartesian position change)
+    ra = fv.returns[0].value.as_atom()
+    cell = ra[2][0] if ra and ra[0] == "call" and ra[2] else None
+    ca = cell.as_atom() if cell is not None else None
+    from_vectors = bool(ca and ca[0] == "call" and call_name(ca).endswith("UnitCell") and len(ca[2]) == 1 and ca[2][0].key().endswith("['direct']"))
+    chk.ob("R10.3", CR, "Crystal.from_vasp_string", "the cell of the loaded crystal is built from the file's lattice vectors (UnitCell(direct)), the same cell "
+           "that converts Cartesian input", from_vectors and (not conv or f"{cell}.to_fractional(" in conv[0].value.key()), node=fv.returns[0].node,
+           fingerprint="poscar-cell-vectors", expected="UnitCell(vasp_data['direct'])", found=str(cell)[:140])
 
 
 def _ret_dict(mod, q):
